@@ -75,6 +75,11 @@ structure RunSt where
 def runStep (st : RunSt) (line : String) : RunSt × String :=
   match words line with
   | ["case", id] => ({}, s!"case {id}")
+  | "stress-incdec" :: ws =>
+    -- search-only stress case: the only model statement is "never panics" (see Properties: all schedules)
+    match kvNat ws "decs", kvNat ws "ms" with
+    | some d, some ms => if 1 ≤ d && d ≤ 16 && 1 ≤ ms && ms ≤ 5000 then (st, "ok") else (st, "bad-op")
+    | _, _ => (st, "bad-op")
   | "cfg" :: ws =>
     match st.cfg, parseCfg ws with
     | none, some cfg => ({ cfg := some cfg, s := S.init cfg }, "ok")
@@ -124,6 +129,8 @@ structure JudgeSt where
 def judgeStep (s : JudgeSt) (op out : String) : JudgeSt :=
   if s.verdict.isSome || out == "bad-op" then s else
   match words op with
+  | "stress-incdec" :: _ =>
+    if out == "ok" then s else { s with verdict := some ("fail - concurrent-Inc-Dec-of-one-request-id:" ++ pctEnc out) }
   | "cfg" :: ws =>
     match s.cfg, parseCfg ws with
     | none, some cfg =>
